@@ -28,6 +28,7 @@ func checkC08(c *Check, a *Anchors) {
 	c08CycleVersionMissing(c, a)
 	c08RootRef(c, a)
 	c08IncludeBase(c, a)
+	c08IncludeAttrsRegardlessOfFlatten(c, a)
 }
 
 // c08IncludeBase: sibling agreement between ResolveEntrypoint and ResolveDir of the local node types.
@@ -746,4 +747,72 @@ func mergeGroup(c *Check, merge *FuncBody) []*FuncBody {
 		}
 	}
 	return out
+}
+
+// c08IncludeAttrsRegardlessOfFlatten: flatten only decides whether names get the namespace; every other attribute of the
+// include statement (internal, excludes, dir, vars) applies to flattened includes as well.
+func c08IncludeAttrsRegardlessOfFlatten(c *Check, a *Anchors) {
+	c.Rule("include-attrs-regardless-of-flatten", "in Tasks.Merge (and its helpers) the code that is conditional on Include.Flatten reads only the naming attributes of the include (Namespace, Aliases): internal, excludes, dir and vars are applied outside it, so a flattened include that is marked internal still hides its tasks; and the task's Internal flag is assigned from Include.Internal")
+	tm := c.P.Func(PkgAst, "Tasks", "Merge")
+	if tm == nil {
+		c.Errorf("include-attrs-regardless-of-flatten: Tasks.Merge not found")
+		return
+	}
+	naming := map[string]bool{"Namespace": true, "Aliases": true, "Flatten": true}
+	nIf, nInternal := 0, 0
+	ord := map[string]int{}
+	for _, fb := range c.P.groupOf(tm, 2) {
+		if fb.Pkg.PkgPath != PkgAst {
+			continue
+		}
+		info := fb.Info()
+		inspectDeep(fb.Body, func(nd ast.Node) bool {
+			switch x := nd.(type) {
+			case *ast.IfStmt:
+				onFlatten := false
+				ast.Inspect(x.Cond, func(m ast.Node) bool {
+					if sel, ok := m.(*ast.SelectorExpr); ok && fieldSel(info, sel, PkgAst, "Include", "Flatten") {
+						onFlatten = true
+					}
+					return true
+				})
+				if !onFlatten {
+					return true
+				}
+				nIf++
+				c.Fn(fb)
+				var bad []string
+				branches := []ast.Node{x.Body}
+				if x.Else != nil {
+					branches = append(branches, x.Else)
+				}
+				for _, br := range branches {
+					ast.Inspect(br, func(m ast.Node) bool {
+						if sel, ok := m.(*ast.SelectorExpr); ok {
+							if s := info.Selections[sel]; s != nil && s.Kind() == types.FieldVal && isNamed(s.Recv(), PkgAst, "Include") && !naming[sel.Sel.Name] {
+								bad = append(bad, "Include."+sel.Sel.Name)
+							}
+						}
+						return true
+					})
+				}
+				c.Decide(len(bad) == 0, "include-attrs-regardless-of-flatten", ordinal(ord, "flatten-branch@"+fnDisplay(fb)), x.Pos(), "the branch on Include.Flatten only namespaces names",
+					"the branch on Include.Flatten applies "+strings.Join(bad, ", ")+": for a flattened include that attribute is ignored (a flattened include marked internal exposes its tasks: they can be called directly and are listed)")
+			case *ast.AssignStmt:
+				for i, l := range x.Lhs {
+					if sel, ok := ast.Unparen(l).(*ast.SelectorExpr); ok && fieldSel(info, sel, PkgAst, "Task", "Internal") && i < len(x.Rhs) {
+						ast.Inspect(x.Rhs[i], func(m ast.Node) bool {
+							if s, ok := m.(*ast.SelectorExpr); ok && fieldSel(info, s, PkgAst, "Include", "Internal") {
+								nInternal++
+							}
+							return true
+						})
+					}
+				}
+			}
+			return true
+		})
+	}
+	c.Decide(nInternal > 0, "include-attrs-regardless-of-flatten", "internal-inherited@"+fnDisplay(tm), tm.Decl.Pos(), "Task.Internal is assigned from Include.Internal", "the merge no longer marks the tasks of an internal include as internal")
+	c.Floor("include-attrs-regardless-of-flatten", nIf, 1)
 }
